@@ -129,7 +129,7 @@ class BuildError(Exception):
 # World: lazily built object graph from a world term
 # --------------------------------------------------------------------------
 
-KINDS = ("docs", "datas", "conds", "parts", "paths", "rules", "schemas", "specs")
+KINDS = ("docs", "datas", "conds", "parts", "paths", "rules", "rlists", "schemas", "specs")
 
 
 class World:
@@ -291,7 +291,16 @@ class World:
             kw["doc"] = copy.deepcopy(doc)
         return Rule(path=self.path(path), condition=self.cond(cond), **kw)
 
+    def _build_rlists(self, t):
+        """A caller-owned Python list of Rule objects (may be handed to several
+        Schema constructors)."""
+        return [self.get("rules", i) for i in t]
+
     def _build_schemas(self, t):
+        if t[0] == "schema_l":  # Schema(<the caller's list object rlists[k]>)
+            return Schema(rules=self.get("rlists", t[1]))
+        if t[0] == "schema_of":  # Schema(other_schema.rules)
+            return Schema(rules=self.get("schemas", t[1]).rules)
         _, rule_refs = t
         return Schema(rules=[self.get("rules", i) for i in rule_refs])
 
